@@ -325,8 +325,11 @@ Definition st_of_w4 (t : w4) : state :=
   match t with W4 a b c d => St (col_of_word a) (col_of_word b) (col_of_word c) (col_of_word d) end.
 Lemma wcol_of_word w : wcol w (col_of_word w).
 Proof.
-  unfold col_of_word, wcol.
-  rewrite !b2n_n2b_small by first [apply byte3_lt | apply byte2_lt | apply byte1_lt | apply byte0_lt].
+  unfold col_of_word. cbn [wcol].
+  rewrite (b2n_n2b_small (byte3 w)) by apply byte3_lt.
+  rewrite (b2n_n2b_small (byte2 w)) by apply byte2_lt.
+  rewrite (b2n_n2b_small (byte1 w)) by apply byte1_lt.
+  rewrite (b2n_n2b_small (byte0 w)) by apply byte0_lt.
   repeat split.
 Qed.
 Lemma wst_of_w4 t : wst t (st_of_w4 t).
